@@ -924,6 +924,145 @@ func parseNumChannel(o vh.Opts, rng *vh.RNG) *vh.Channel {
 	return ch
 }
 
+
+// ------------------------------------------------------------------ oracle json.gateway
+
+// jsonGateway: the HTTP gateway renders responses with encoding/json (proxyapi.humanReadableMarshaler), i.e. through
+// (*Aggregation_Bucket).MarshalJSON.  The rendering must carry every value exactly: parsing the JSON number back gives
+// the float64 that went in (NaN / Inf as their quoted spellings), for the value and every quantile.
+func jsonGatewayOracle(o vh.Opts, rng *vh.RNG, rep *vh.Report) *vh.Oracle {
+	orc := vh.NewOracle("json.gateway", "on the implementation only: a public aggregation (from makeProtoAggregation, or synthetic values that float32 cannot hold: sums >= 2^24 with fractions, counts > 2^24, 0.1-steps, NaN quantiles of value-less buckets) rendered with encoding/json as the HTTP gateway does parses back to exactly the same float64 values; non-trivial = a value or quantile that is not representable in float32")
+	check := func(key string, agg *seqproxyapi.Aggregation) {
+		nt := false
+		for _, b := range agg.Buckets {
+			for _, v := range append([]float64{b.Value}, b.Quantiles...) {
+				nt = nt || (!math.IsNaN(v) && float64(float32(v)) != v)
+			}
+		}
+		orc.Case(key, nt)
+		raw, err := json.Marshal(agg)
+		if err != nil {
+			class := "json-marshal-error"
+			if strings.Contains(err.Error(), "NaN") {
+				class = "json-nan-quantiles-not-encodable"
+			}
+			rep.Violate(vh.Violation{Site: "pkg/seqproxyapi/v1/marshaler.go:Aggregation_Bucket.MarshalJSON", Class: class, What: err.Error(), Replay: []string{key}})
+			return
+		}
+		var back struct {
+			Buckets []struct {
+				Value     json.RawMessage   `json:"value"`
+				Quantiles []json.RawMessage `json:"quantiles"`
+			} `json:"buckets"`
+		}
+		if err := json.Unmarshal(raw, &back); err != nil || len(back.Buckets) != len(agg.Buckets) {
+			rep.Violate(vh.Violation{Site: "pkg/seqproxyapi/v1/marshaler.go:Aggregation_Bucket.MarshalJSON", Class: "json-shape", What: fmt.Sprintf("%v: %s", err, raw), Replay: []string{key}})
+			return
+		}
+		same := func(raw json.RawMessage, v float64) bool {
+			f, err := strconv.ParseFloat(strings.Trim(string(raw), `"`), 64)
+			return err == nil && (math.Float64bits(f) == math.Float64bits(v) || (math.IsNaN(f) && math.IsNaN(v)))
+		}
+		for i, b := range agg.Buckets {
+			ok := same(back.Buckets[i].Value, b.Value) && len(back.Buckets[i].Quantiles) == len(b.Quantiles)
+			for j := 0; ok && j < len(b.Quantiles); j++ {
+				ok = same(back.Buckets[i].Quantiles[j], b.Quantiles[j])
+			}
+			if !ok {
+				rep.Violate(vh.Violation{Site: "pkg/seqproxyapi/v1/marshaler.go:Aggregation_Bucket.MarshalJSON", Class: "json-value-not-exact",
+					What: fmt.Sprintf("bucket %q value %v quantiles %v rendered as %s", b.Key, b.Value, b.Quantiles, raw), Replay: []string{key}})
+				return
+			}
+		}
+	}
+	// synthetic results through the real makeProtoAggregation
+	special := []float64{2140234007.25, 16777217, 16777216, 33554433, 0.1, 0.30000000000000004, 1e300, -123456789.125, 4.9e-324, 1 << 53, 0, -0.5, math.NaN()}
+	for i := o.Pick(200, 2000); i > 0; i-- {
+		var bs []seq.AggregationBucket
+		var parts []string
+		for k := rng.Range(1, 4); k > 0; k-- {
+			v := special[rng.Intn(len(special))]
+			if rng.Bool() {
+				v = float64(rng.Range(1<<24, 1<<30)) + []float64{0, 0.5, 0.25, 0.1}[rng.Intn(4)]
+			}
+			var qs []float64
+			for j := rng.Intn(3); j > 0; j-- {
+				qs = append(qs, special[rng.Intn(len(special)-1)]) // the NaN quantile case is the directed witness below
+			}
+			name := binTokens[1+rng.Intn(2)]
+			bs = append(bs, seq.AggregationBucket{Name: name, Value: v, Quantiles: qs, NotExists: int64(rng.Intn(3)), MID: seq.MID(codecMids[rng.Intn(len(codecMids))])})
+			parts = append(parts, fmt.Sprintf("%s:%s:%s", name, strconv.FormatFloat(v, 'g', -1, 64), strings.ReplaceAll(fnumsG(qs), ",", "~")))
+		}
+		api := proxyapi.VerifC06MakeProtoAggregation([]seq.AggregationResult{{Buckets: bs}})[0]
+		check("json "+strings.Join(parts, ","), api)
+	}
+	// directed: a quantile aggregation in which group gb has only documents without the field (a value-less bucket)
+	a := &seq.AggregatableSamples{SamplesByBin: map[seq.AggBin]*seq.SamplesContainer{}}
+	ca := seq.NewSamplesContainers()
+	ca.InsertNTimes(5, 1)
+	ca.InsertSample(5)
+	cb := seq.NewSamplesContainers()
+	cb.NotExists = 2
+	a.SamplesByBin[seq.AggBin{Token: "ga"}], a.SamplesByBin[seq.AggBin{Token: "gb"}] = ca, cb
+	res := a.Aggregate(seq.AggregateArgs{Func: seq.AggFuncQuantile, Quantiles: []float64{0.5}})
+	check("json quantile-of-value-less-bucket ga:5 gb:-", proxyapi.VerifC06MakeProtoAggregation([]seq.AggregationResult{res})[0])
+	return orc
+}
+
+func fnumsG(vs []float64) string {
+	if len(vs) == 0 {
+		return "-"
+	}
+	var ss []string
+	for _, v := range vs {
+		ss = append(ss, strconv.FormatFloat(v, 'g', -1, 64))
+	}
+	return strings.Join(ss, ",")
+}
+
+// replayJSON re-runs a json.gateway case: `json name:value:q+q,...` or the directed witness.
+func replayJSON(line string, rep *vh.Report, orc *vh.Oracle) {
+	if strings.Contains(line, "quantile-of-value-less-bucket") {
+		o2 := jsonGatewayOracle(vh.Opts{Tier: "replay"}, vh.NewRNG(1), rep)
+		orc.Cases += o2.Cases
+		return
+	}
+	var bs []seq.AggregationBucket
+	for _, p := range strings.Split(strings.TrimPrefix(line, "json "), ",") {
+		f := strings.Split(p, ":")
+		if len(f) != 3 {
+			continue
+		}
+		v, _ := strconv.ParseFloat(f[1], 64)
+		b := seq.AggregationBucket{Name: f[0], Value: v}
+		if f[2] != "-" {
+			for _, q := range strings.Split(f[2], "~") {
+				x, _ := strconv.ParseFloat(q, 64)
+				b.Quantiles = append(b.Quantiles, x)
+			}
+		}
+		bs = append(bs, b)
+	}
+	api := proxyapi.VerifC06MakeProtoAggregation([]seq.AggregationResult{{Buckets: bs}})[0]
+	orc.Case(line, true)
+	raw, err := json.Marshal(api)
+	if err != nil {
+		rep.Violate(vh.Violation{Site: "pkg/seqproxyapi/v1/marshaler.go:Aggregation_Bucket.MarshalJSON", Class: "json-marshal-error", What: err.Error(), Replay: []string{line}})
+		return
+	}
+	var back seqproxyapi.Aggregation
+	if err := json.Unmarshal(raw, &back); err != nil {
+		return
+	}
+	for i, b := range api.Buckets {
+		if i < len(back.Buckets) && math.Float64bits(back.Buckets[i].Value) != math.Float64bits(b.Value) && !(math.IsNaN(b.Value) && math.IsNaN(back.Buckets[i].Value)) {
+			rep.Violate(vh.Violation{Site: "pkg/seqproxyapi/v1/marshaler.go:Aggregation_Bucket.MarshalJSON", Class: "json-value-not-exact",
+				What: fmt.Sprintf("bucket %q value %v rendered as %s", b.Key, b.Value, raw), Replay: []string{line}})
+			return
+		}
+	}
+}
+
 // ------------------------------------------------------------------ scripted index for processor.IndexSearch
 
 type doc struct {
@@ -1130,10 +1269,53 @@ func fmtDocs(docs []doc) string {
 	return vh.JoinStrs(ss, ",")
 }
 
+// e2eDocsDesc, when set, stands for the document list in case keys (a generated corpus too large to spell out)
+var e2eDocsDesc string
+
+func docsKey(rel []doc) string {
+	if e2eDocsDesc != "" {
+		return e2eDocsDesc
+	}
+	return fmtDocs(rel)
+}
+
+// bigDocs: n matching documents spread evenly over one minute (document i is newer than document i-1), nearly all
+// sharing the group token `ga` and the field token `1`, so that single tokens own more than 65536 LIDs and their
+// LID lists cross LID-block boundaries of a sealed fraction.
+func bigDocs(n int, seed int64) []doc {
+	r := vh.NewRNG(seed)
+	docs := make([]doc, n)
+	for i := range docs {
+		d := doc{mid: uint64(i) * 60000 / uint64(n), match: true}
+		switch x := r.Intn(100); {
+		case x < 93:
+			d.g = []string{"ga"}
+		case x < 98:
+			d.g = []string{"gb"}
+		}
+		switch x := r.Intn(100); {
+		case x < 80:
+			d.f = []string{"1"}
+		case x < 90:
+			d.f = []string{"2"}
+		case x < 96:
+			d.f = []string{"3"}
+		}
+		docs[i] = d
+	}
+	return docs
+}
+
 func parseDocs(s string) []doc {
 	var docs []doc
 	if s == "-" {
 		return nil
+	}
+	if strings.HasPrefix(s, "big:") {
+		var n int
+		var seed int64
+		fmt.Sscanf(s, "big:%d:%d", &n, &seed)
+		return bigDocs(n, seed)
 	}
 	for _, x := range strings.Split(s, ",") {
 		f := strings.Split(x, ":")
@@ -1796,7 +1978,7 @@ func runAPI(rep *vh.Report, orc *vh.Oracle, srv seqproxyapi.SeqProxyApiServer, r
 	if r.hist > 0 {
 		hist = &seqproxyapi.HistQuery{Interval: fmt.Sprintf("%dms", r.hist)}
 	}
-	key := fmt.Sprintf("e2eapi %s %s docs=%s", prefix, r.String(), fmtDocs(rel))
+	key := fmt.Sprintf("e2eapi %s %s docs=%s", prefix, r.String(), docsKey(rel))
 	ctx, cancel := context.WithTimeout(context.Background(), 30*time.Second)
 	defer cancel()
 	var gotAggs []*seqproxyapi.Aggregation
@@ -1944,11 +2126,13 @@ func e2eEnv(rep *vh.Report, orc *vh.Oracle, shards int, limits limSpec, batches 
 			rel = append(rel, d)
 			all = append(all, abs)
 		}
-		if len(lines) > 0 {
-			if err := bulkPost(env.IngestorBulkAddr(), lines); err != nil {
+		for len(lines) > 0 {
+			k := min(len(lines), 10000)
+			if err := bulkPost(env.IngestorBulkAddr(), lines[:k]); err != nil {
 				orc.Error = "bulk: " + err.Error()
 				return
 			}
+			lines = lines[k:]
 		}
 		if sealAfter[b] {
 			env.WaitIdle()
@@ -2000,7 +2184,7 @@ func e2eEnv(rep *vh.Report, orc *vh.Oracle, shards int, limits limSpec, batches 
 			qpr, _, _, err = env.Search(e2eQuery, 5, opts...)
 		}
 		// the case key uses offsets from the base minute, not wall-clock time
-		key := fmt.Sprintf("e2e shards=%d sealed=%d lim=%s async=%s %s hist=%d order=%d range=%d-%d docs=%s", shards, sealed, limits, vh.B(q.async), a.String(), q.hist, q.order, q.from, q.to, fmtDocs(rel))
+		key := fmt.Sprintf("e2e shards=%d sealed=%d lim=%s async=%s %s hist=%d order=%d range=%d-%d docs=%s", shards, sealed, limits, vh.B(q.async), a.String(), q.hist, q.order, q.from, q.to, docsKey(rel))
 		nmatch := 0
 		for _, d := range inRange {
 			if d.match {
@@ -2121,6 +2305,23 @@ func e2eChild(o vh.Opts) {
 	}
 	rng := vh.NewRNG(o.Seed*7919 + 13)
 	nEnv := o.Pick(4, 60)
+	// one sealed fraction in which single tokens own more than 65536 LIDs (several LID blocks), queried over the
+	// oldest fifth / the middle / everything, both orders: count, sum and histogram against the brute-force values
+	{
+		n, seed := 70000, o.Seed
+		e2eDocsDesc = fmt.Sprintf("big:%d:%d", n, seed)
+		var qs []e2eQ
+		for _, rg := range [][2]uint64{{0, 12000}, {20000, 40000}, {0, 0}} {
+			for _, ord := range []seq.DocsOrder{seq.DocsOrderDesc, seq.DocsOrderAsc} {
+				qs = append(qs,
+					e2eQ{a: aggq{fn: "count", group: true}, hist: 1000, order: ord, from: rg[0], to: rg[1]},
+					e2eQ{a: aggq{fn: "sum", group: true}, order: ord, from: rg[0], to: rg[1]},
+					e2eQ{a: aggq{fn: "sum", interval: 15000}, hist: 20000, order: ord, from: rg[0], to: rg[1]})
+			}
+		}
+		e2eEnv(rep, orc, 1, "0", [][]doc{bigDocs(n, seed)}, []bool{true}, qs, nil)
+		e2eDocsDesc = ""
+	}
 	for e := 0; e < nEnv && orc.Error == ""; e++ {
 		shards := rng.Range(1, 3)
 		limits := genLim(rng)
@@ -2281,6 +2482,11 @@ func replayE2E(line string, rep *vh.Report, orc *vh.Oracle) {
 		batches = append(batches, docs[len(docs)*b/nb:len(docs)*(b+1)/nb])
 		sealAfter = append(sealAfter, b+1 < nb)
 	}
+	if strings.HasPrefix(f[9], "docs=big:") { // the generated corpus is one sealed fraction
+		e2eDocsDesc = strings.TrimPrefix(f[9], "docs=")
+		defer func() { e2eDocsDesc = "" }()
+		batches, sealAfter = [][]doc{docs}, []bool{true}
+	}
 	e2eEnv(rep, orc, shards, limits, batches, sealAfter, []e2eQ{{a, hist, seq.DocsOrder(ord), from, to, async}}, nil)
 }
 
@@ -2423,6 +2629,8 @@ func main() {
 				hasE2E = true
 			} else if strings.HasPrefix(l, "codec ") {
 				replayCodec(l, rep, mo)
+			} else if strings.HasPrefix(l, "json ") {
+				replayJSON(l, rep, mo)
 			}
 		}
 		rep.AddChannel(ch, o.Driver)
@@ -2454,6 +2662,9 @@ func main() {
 	}
 	if want("parse.num") {
 		rep.AddChannel(parseNumChannel(o, rng.Fork()), o.Driver)
+	}
+	if want("json.gateway") {
+		rep.AddOracle(jsonGatewayOracle(o, rng.Fork(), rep))
 	}
 	if want("codec.fields") {
 		rep.AddChannel(codecFieldsChannel(o, rng.Fork()), o.Driver)
